@@ -619,3 +619,96 @@ def engine_correspondence(ctx, safe_prog, unsafe_prog):
                 why = "effect counts differ: safe %d, unsafe %d; extra: %s" % (len(a), len(b), (a[len(b):] or b[len(a):])[:2])
         ctx.ob(RE, "%s: index engine (%s) and pointer engine (%s) perform the same effects on the current/next context" % (fs.short.split("::")[-1], safe_prog.cfg, unsafe_prog.cfg), same, why, fu.loc())
     ctx.floor(RE, len(a), 35, "effect lines per engine form")
+
+
+def trigger_and_levels(ctx, prog):
+    """piece trigger and per-level walk of the engine (all three forms): the per-level loop is entered only when
+    roll+1 != 0, ((roll+1)/MIN) & roll_mask == 0 and (roll+1) % MIN == 0; the level value is shifted by bhidx_start once
+    before the loop and by 1 per level, and the walk stops at the first level whose bit is set"""
+    RS = "SA-STEP"
+    for name in FORMS:
+        f = prog.fn(name)
+        ctx.visit(f)
+        sy = Sym(f)
+        nm = f.short.split("::")[-1]
+        # the block that initialises the level walk: `h = h >> bhidx_start`
+        roll1_ = "core::num::<impl u32>::wrapping_add(internals::generate::hashes::rolling_hash::RollingHash::value(param:self.0.roll_hash),1)"
+        init_ = "Div(%s,internals::hash::block::block_size::MIN=3)" % roll1_
+        hl = []
+        for l in range(f.argc + 1, len(f.locals)):
+            for (blk, j, kind, x) in f.defs.get(l, []):
+                if kind == "rv" and canon(strip(sy.rvalue(x))) == init_ and len(f.defs.get(l, [])) > 1:
+                    hl.append(l)
+        hl = sorted(set(hl))
+        if len(hl) != 1:
+            ctx.ob(RS, "%s: level value (the variable initialised as (roll+1)/MIN)" % nm, False, "%d candidates" % len(hl), f.loc())
+            continue
+        h = hl[0]
+        defs = f.defs.get(h, [])
+        shapes = []
+        for (blk, j, kind, x) in defs:
+            e = strip(sy.rvalue(x)) if kind == "rv" else None
+            shapes.append((blk, canon(e) if e else "call"))
+        roll1 = "core::num::<impl u32>::wrapping_add(internals::generate::hashes::rolling_hash::RollingHash::value(param:self.0.roll_hash),1)"
+        want_init = "Div(%s,internals::hash::block::block_size::MIN=3)" % roll1
+        hn = f.locals[h]["name"]
+        want_start = "Shr(local:%s_%d,param:self.0.bhidx_start)" % (hn, h)
+        want_step = "Shr(local:%s_%d,1)" % (hn, h)
+        got = sorted(c for b, c in shapes)
+        ok = sorted([want_init, want_start, want_step]) == got
+        ctx.ob(RS, "%s: h = (roll+1)/MIN, then h >>= bhidx_start once, then h >>= 1 per level - and nothing else assigns h" % nm, ok, "assignments: %s" % [c[:90] for c in got], f.loc())
+        sb = [b for b, c in shapes if c == want_start]
+        if not sb:
+            continue
+        ats = [_norm_cmp(a) for a in _atoms_at(f, sy, sb[0])]
+        need = {
+            "roll+1 != 0": lambda a: a[0] == "Ne" and a[1] == roll1 and a[2] == "0",
+            "((roll+1)/MIN) & roll_mask == 0": lambda a: a[0] == "Eq" and a[1] == "BitAnd(local:%s_%d,param:self.0.roll_mask)" % (hn, h) and a[2] == "0",
+            "(roll+1) % MIN == 0": lambda a: a[0] == "Eq" and a[1] == "Rem(%s,internals::hash::block::block_size::MIN=3)" % roll1 and a[2] == "0",
+        }
+        for k, p in need.items():
+            hit = [a for a in ats if p(a)]
+            ctx.ob(RS, "%s: the level walk starts only when %s" % (nm, k), bool(hit), "%s" % (hit[0],) if hit else "conditions: %s" % ats[:6], f.loc())
+        # per-level step `h >>= 1` only when the current level's bit is clear
+        st = [b for b, c in shapes if c == want_step]
+        if st:
+            ats = [_norm_cmp(a) for a in _atoms_at(f, sy, st[0])]
+            hit = [a for a in ats if a[0] == "Eq" and a[1] == "BitAnd(local:%s_%d,1)" % (hn, h) and a[2] == "0"]
+            ctx.ob(RS, "%s: the walk continues to the next level only while (h & 1) == 0" % nm, bool(hit), "%s" % (hit[:1] or ats[-3:]), f.loc())
+
+
+def digest_sources(ctx, prog):
+    """finalize_raw_internal: block size = guessed index L; block hash 1 is read from context L, block hash 2 from
+    context L+1 (or, in the two single-piece cases, from context L's running hash / the last-piece hash)"""
+    RS = "SA-STEP"
+    f = prog.fn("Generator::finalize_raw_internal")
+    ctx.visit(f)
+    sy = Sym(f)
+    from . import fields as F
+    L = "internals::generate::Generator::guess_output_log_block_size(param:self)"
+    ws = [w for w in F.census(f) if w.owner.endswith("hash::FuzzyHashData")]
+    lb = [w for w in ws if w.field == "log_blocksize"]
+    ok = len(lb) == 1 and canon(strip(lb[0].src)) == L
+    ctx.ob(RS, "finalize: log_blocksize = guess_output_log_block_size()", ok, "%s" % [canon(strip(w.src)) for w in lb], f.loc())
+    bad = []
+    n = 0
+    for w in ws:
+        if w.field not in ("blockhash1", "blockhash2") or w.src is None or w.kind == "handoff":
+            continue
+        n += 1
+        srcs = [w.src]
+        s0 = strip(w.src)
+        if s0[0] == "local":
+            srcs = [(sy.rvalue(x) if kind == "rv" else sy.call(x, blk)) for (blk, idx, kind, x) in f.defs.get(s0[1], [])] or [w.src]
+        c = " | ".join(canon(x) for x in srcs)
+        k = w.field[-1]
+        ctx_idx = set(__import__("re").findall(r"param:self\.0\.bh_context\[([^\]]*(?:\([^\)]*\))?[^\]]*)\]", c))
+        want = {L} if k == "1" else {"Add(%s,1)" % L}
+        if k == "2" and ("param:self.0.h_last" in c and not ctx_idx):
+            continue  # largest block size: dedicated last-piece hash
+        if k == "2" and ctx_idx == {L} and ".h_full" in c:
+            continue  # block size index 0 with no piece: running hash of context L
+        if not ctx_idx or not ctx_idx <= want:
+            bad.append("%s <- %s" % (w.field, c[:120]))
+    ctx.ob(RS, "finalize: block hash 1 is assembled from context L, block hash 2 from context L+1 (or the two single-piece sources)", not bad and n >= 6,
+           "; ".join(bad) or "%d array writes checked" % n, f.loc())
